@@ -42,6 +42,10 @@ def alphabet(keys, rich=True):
     ops.append(['extend', [keys[0], keys[-1]], True, 'pairs'])
     ops.append(['extend', [keys[-1], keys[1 % len(keys)]], False, 'pairs'])
     ops.append(['extend', [keys[1 % len(keys)], 'e'], True, 'dict'])
+    ops.append(['extend', ['e', keys[0], 'e'], True, 'pairs'])          # the same new key twice in one call
+    ops.append(['extend', ['f', 'f'], True, 'pairs'])
+    ops.append(['extend', ['g', keys[-1], 'g'], False, 'pairs'])
+    ops.append(['update', ['h', 'h', keys[0]]])
     ops.append(['update', [keys[-1], keys[0]]])
     ops.append(['setdefault', keys[1 % len(keys)]])
     return ops
